@@ -835,7 +835,17 @@ func (e *endpoint) gatedGrant(ops []*Op) {
 	if best == 0 || f {
 		return
 	}
-	e.wmu.Lock()
+	// our own script sender may sit in a Write (holding wmu) that cannot finish while the gate is
+	// closed: never wait for it here
+	locked := false
+	for i := 0; i < 100 && !locked; i++ {
+		if locked = e.wmu.TryLock(); !locked {
+			time.Sleep(time.Millisecond)
+		}
+	}
+	if !locked {
+		return
+	}
 	if needConn > 0 {
 		e.writeWU(0, uint32(needConn))
 	}
